@@ -153,6 +153,48 @@ def process_wide_state(ctx, base):
                           f'C06: permissions of created directories/files depend on what other threads were doing ({driver}, {workers} workers): {len(wrong)} directories not 0755, {len(wrongf)} files not 0644')
 
 
+def failing_special(ctx, base):
+    """an operation that FAILS in a worker (a FIFO whose destination name is a non-empty directory): the exit status must not
+    depend on which worker thread happens to take it, on the worker count or on the driver"""
+    results = {}
+    for driver, workers in (('parfile', 1), ('parfile', 2), ('parfile', 4), ('parfile', 8), ('parfile', 16), ('parblock', 4)):
+        for rep in range(1 if workers == 1 else (3 if ctx.quick else 10)):
+            sc = treerun.Scn(); sc.driver, sc.workers = driver, workers
+            sc.d(b'/W').d(b'/W/S').s(b'/W/S/pipe', 'fifo')
+            for i in range(16):
+                sc.f(b'/W/S/f%d' % i)
+            sc.d(b'/W/DEST').d(b'/W/DEST/S').d(b'/W/DEST/S/pipe').f(b'/W/DEST/S/pipe/occupied')
+            sc.opts = ['r']; sc.paths = [b'S', b'DEST']
+            plan = [f'sched {ctx.seed * 7 + rep * 13 + workers} {["pct", "delay"][rep % 2]} {1 + rep % 3}'] if rep else None
+            o = treerun.run(base, sc, plan=plan, trace=bool(plan), timeout=60)
+            results[(driver, workers, rep)] = o.res.cls
+            ctx.count(f'failing_special.{driver}.{o.res.cls}'); ctx.case(('failing-special', driver, workers, rep), True)
+    ref = results[('parfile', 1, 0)]
+    bad = {k: v for k, v in results.items() if v != ref}
+    if bad or ref == '0':
+        ctx.violation('failing-special.json', dict(reference=ref, results={str(k): v for k, v in results.items()}),
+                      f'C06: a FIFO that cannot be recreated (its destination name is a non-empty directory): exit status {ref} with one worker, but '
+                      f'{sorted(set(bad.values()))} under {sorted(set((k[0], k[1]) for k in bad))}' if bad else 'C06/C04: a failing special-file operation exits 0 with every configuration')
+
+
+def pool_vs_descriptor_limit(ctx, base):
+    """the outcome must not depend on the worker count even when the pool threads are much slower than the dispatcher and the
+    process has the usual descriptor limit: 1000 one-block files, RLIMIT_NOFILE=1024, every copy_file_range stalled 80 ms"""
+    out = {}
+    for workers, plan in ((1, None), (4, ['stall copy_file_range 80000'])):
+        sc = treerun.Scn(); sc.driver, sc.workers = 'parblock', workers
+        sc.d(b'/W').d(b'/W/S')
+        for i in range(1000):
+            sc.f(b'/W/S/f%d' % i)
+        sc.opts = ['r']; sc.paths = [b'S', b'DEST']
+        o = treerun.run(base, sc, plan=plan, trace=bool(plan), timeout=300, nofile=1024)
+        out[workers] = (o.res.cls, o.after == out[1][1] if workers != 1 else o.after, o.res.stderr.strip()[-100:])
+        ctx.count(f'pool_vs_limit.{workers}.{o.res.cls}'); ctx.case(('pool-vs-limit', workers), True)
+    if out[1][0] != out[4][0] or (out[4][0] == '0' and out[4][1] is not True):
+        ctx.violation('pool-vs-limit.json', dict(one_worker=out[1][0], four_workers_stalled=out[4][0], stderr=out[4][2]),
+                      f'C06: 1000 files under RLIMIT_NOFILE=1024 (parblock): exit {out[1][0]} with one worker, exit {out[4][0]} / different result with 4 stalled workers: {out[4][2]}')
+
+
 def run(ctx):
     ctx.proofs()
     core.build_repo(); core.build_sup()
@@ -163,6 +205,8 @@ def run(ctx):
         forced_order_findings(ctx, base)
         backup_prefix_names(ctx, base)
         process_wide_state(ctx, base)
+        failing_special(ctx, base)
+        pool_vs_descriptor_limit(ctx, base)
         for i in range(n):
             sc = gen(rng)
             configs = [(d, w) for d in ('parfile', 'parblock') for w in (1, 2, 3, 8, 64)]
